@@ -619,6 +619,14 @@ def outcomes_equal(a, b, mode2D):
     return True, ""
 
 
+def _fails(ns, key):
+    try:
+        eval(G.INSTS[key].py, ns)
+    except Exception:
+        return True
+    return False
+
+
 def build_specs(ns, keys):
     return [eval(G.INSTS[k].py, ns) for k in keys]
 
@@ -702,8 +710,10 @@ def run_multiset(ns, clsname, mode2D, ms, stats, text_obs=None):
             if route == "api":
                 try:
                     specs = build_specs(ns, perm)
-                except Exception as e:
-                    raise HarnessError(f"cannot build {perm} in mode2D={mode2D}: {e!r}")
+                except Exception as e:  # every instance is a documented form with valid arguments
+                    bad = next((k for k in perm if _fails(ns, k)), perm[0])
+                    report(f"build:{bad}", f"`{G.INSTS[bad].text}` (mode2D={mode2D}) cannot be constructed: {e!r}")
+                    continue
                 obs = observe(lambda: ns["new"](cls, specs))
             else:
                 if text_obs is None:
@@ -961,9 +971,15 @@ def run(ctx):
         bounds={
             "tier": ctx.tier,
             "quick": "size<=2 over the quick instances for all classes (+ every instance alone), size 3 over the core instances for Object and B",
-            "thorough": "size<=2 over all enumerated instances for all classes, size 3 over all of them for Object and B (quick/core instances for the other classes), size 4 over position/orientation/with core for Object and B",
+            "thorough": "size<=2 over all enumerated instances for all classes, size 3 over all of them for Object and B (quick/core instances for the other classes), size 4 over the position/orientation/with core (15 instances) for Object",
         },
     )
+    ctx.notes += [
+        "read-only observations (not judged): veneer.FacingDirectlyAwayFrom builds a specifier named 'FacingDirectlyToward', so "
+        "`facing directly toward X, facing directly away from Y` is refused as 'Cannot use FacingDirectlyToward specifier to modify itself'; "
+        "the 'modified twice' branch of _resolveSpecifiers formats an undefined variable `name` (NameError), unreachable while the "
+        "same-name check precedes it",
+    ]
     ctx.assumptions += [
         "error kinds are told apart by exception class and message; 'Cannot use X specifier to modify itself' (same specifier twice) is accepted where the reference predicts a same-priority ambiguity or a double modification",
         "when several documented errors apply to one multiset, any of them may be reported, in any order",
